@@ -134,6 +134,12 @@ class C11(Prop):
                     k = "%s/failed-open-leaks/%s" % (eng, openfail[0])
                 keys.append(k)
         if not keys:
+            if code & 1 and start_in_recovery:
+                # a user Start admitted while Recovering races the recovery's own nested Start (the open finding
+                # <engine>/start-admitted-while-recovering). Which of the two Starts opened or lost a connector is
+                # not attributable in the log, so the acceptor cannot always explain such a log although the
+                # monitor accepts it: it is a consequence of that finding, not a new disagreement
+                return "%s/start-admitted-while-recovering" % eng
             return "%s/model-rejects-log" % eng if code & 1 else "%s/unknown" % eng
         for k in keys:
             if k not in known:
